@@ -502,7 +502,7 @@ def record_and_validate(rep, cols, nkeys, nvals, steps, seed, crash=0, label="",
                          initcid=summary.get("init_cid", 0))
     trace_event_counts(rep, out)
     res["init_rid"], res["init_cid"] = summary.get("init_rid", 1), summary.get("init_cid", 0)
-    for k in ("powerloss_images", "powerloss_images_with_data_dropped"):
+    for k in ("powerloss_images", "powerloss_images_with_data_dropped", "aligned_collider_ops"):
         if summary.get(k):
             rep.extra[k] = rep.extra.get(k, 0) + summary[k]
     rep.nontrivial.add("trace:%s:%d" % (label, seed))
@@ -1486,6 +1486,9 @@ def c09(tier):
     if rep.extra["crash_right_after_old_index_unlinked"] == 0:
         raise ToolError("the scripted growth-crash trace did not crash right after the unlink of the old index: vacuous")
     rep.extra["index_growth_in_traces"] = growth
+    if rep.extra.get("aligned_collider_ops", 0) < 3:
+        raise ToolError("C09 traces hold fewer than 3 directed operations on slot-aligned colliding keys of two index "
+                        "generations (%s): vacuous" % rep.extra.get("aligned_collider_ops"))
     if growth["traces_with_growth"] < ntr - 1 or growth["traces_with_two_pending_generations"] == 0:
         raise ToolError("C09 traces did not grow the index (%s): vacuous" % growth)
     return rep.finish()
